@@ -702,7 +702,7 @@ func init() {
 	register(&Property{
 		ID:          "C11",
 		Level:       "other",
-		Explanation: "Decides the structural necessary conditions of 'the L1 info tree and rollup exit tree mirror the L1 contracts': C11-leaf — leaf hash keccak(ger‖parent hash‖BE64 timestamp) and GER keccak(mainnet‖rollup) layouts against the contract (shared engine with C09); C11-feed — each of the five watched topics is the ABI signature (read from the contract bindings) of the event its handler parses, the handler's event literal takes every field from the same-named field of the parsed log (ParentHash/Timestamp from the block header, BlockPosition from the log index), every successful handler return has emitted its event, and ProcessBlock builds the leaf from the event field by field (PreviousBlockHash ← ParentHash), computes GlobalExitRoot and Hash from that same object before it is inserted and appended with {Index: L1InfoTreeIndex, Hash}; C11-index — index = initial + per-block counter, initial = getLastIndex()+1 or 0 only on not-found, counter +1 only after AddLeaf succeeded; C11-v2 — a mismatch of the announced root or of Index+1 with the leaf count always latches the halt before any further write; C11-rollup — UpsertLeaf gets {RollupID-1, ExitRoot} only for a non-zero exit root that differs from the stored leaf of that rollup under the last root, and the row records the root returned by that update; C11-lookup — global_exit_root is UNIQUE and the lookups by index / GER are bound to their argument. C11-order — each first/last accessor of the store (GetLastVerifiedBatches, getLastIndex, GetLatestInfoUntilBlock, GetFirst*…) selects by exactly its arguments and orders by chain position (block_num, block_pos; or the leaf index) in the direction its name says, LIMIT 1. UpsertLeaf's orientation is C08-orient. Not decided: value equality with the contracts for all histories. Added after round 7: C11-schema, C11-bootstrap (shared with C05-bootstrap).",
+		Explanation: "Decides the structural necessary conditions of 'the L1 info tree and rollup exit tree mirror the L1 contracts': C11-leaf — leaf hash keccak(ger‖parent hash‖BE64 timestamp) and GER keccak(mainnet‖rollup) layouts against the contract (shared engine with C09); C11-feed — each of the five watched topics is the ABI signature (read from the contract bindings) of the event its handler parses, the handler's event literal takes every field from the same-named field of the parsed log (ParentHash/Timestamp from the block header, BlockPosition from the log index), every successful handler return has emitted its event, and ProcessBlock builds the leaf from the event field by field (PreviousBlockHash ← ParentHash), computes GlobalExitRoot and Hash from that same object before it is inserted and appended with {Index: L1InfoTreeIndex, Hash}; C11-index — index = initial + per-block counter, initial = getLastIndex()+1 or 0 only on not-found, counter +1 only after AddLeaf succeeded; C11-v2 — a mismatch of the announced root or of Index+1 with the leaf count always latches the halt before any further write; C11-rollup — UpsertLeaf gets {RollupID-1, ExitRoot} only for a non-zero exit root that differs from the stored leaf of that rollup under the last root, and the row records the root returned by that update; C11-lookup — global_exit_root is UNIQUE and the lookups by index / GER are bound to their argument. C11-order — each first/last accessor of the store (GetLastVerifiedBatches, getLastIndex, GetLatestInfoUntilBlock, GetFirst*…) selects by exactly its arguments and orders by chain position (block_num, block_pos; or the leaf index) in the direction its name says, LIMIT 1. UpsertLeaf's orientation is C08-orient. Not decided: value equality with the contracts for all histories. Added after round 7: C11-schema, C11-bootstrap (shared with C05-bootstrap). Added after round 9: C11-conflate (shared with C05-conflate; the pinned tree has the known finding D3 here too), C11-finality (shared with C06-finality), C11-trees (shared with C04-trees, with Reorg#only-deletes).",
 		Rules: []Rule{
 			{ID: "C11-schema", Floor: 15, Run: func(c *core.Ctx) { schemaTypesRule(c, "C11-schema", "l1infotreesync", "tree") }, Text: "[SCHEMA-TYPES] integer columns have INTEGER affinity (numeric ORDER BY), big.Int text columns have TEXT affinity, references are not deferred to COMMIT"},
 			{ID: "C11-bootstrap", Floor: 2, Run: shared("C11-bootstrap", c05Bootstrap), Text: "(shared with C05-bootstrap) a fresh store is primed with InitialBlock-1: the events of the initial block are synced"},
@@ -713,6 +713,9 @@ func init() {
 			{ID: "C11-rollup", Floor: 4, Run: c11Rollup, Text: "[PROV]+[DOM] rollup exit tree update arguments, guards and recorded root (on every verify_batches insert)"},
 			{ID: "C11-lookup", Floor: 3, Run: c11Lookup, Text: "[SCHEMA]+SQL lookups by index and GER"},
 			{ID: "C11-order", Floor: 9, Run: c11Order, Text: "SQL: first/last accessors order by chain position, restricted by exactly their arguments"},
+			{ID: "C11-conflate", Floor: 4, Run: shared("C11-conflate", c05Conflate), Text: "(shared with C05-conflate) a failed log query is never read as an empty range"},
+			{ID: "C11-finality", Floor: 9, Run: shared("C11-finality", c06Finality), Text: "(shared with C06-finality) a block above the finalized one is tracked: the flag is computed per block"},
+			{ID: "C11-trees", Floor: 9, Run: shared("C11-trees", c04Trees), Text: "(shared with C04-trees) a rewind only deletes; both trees are rewound"},
 			{ID: "C11-tree", Floor: 9, Run: func(c *core.Ctx) { storeRule(c, "C11-tree") }, Text: "(shared with C08-store) every node of an updated path is stored; lookups by key"},
 			{ID: "C11-upsert", Floor: 2, Run: func(c *core.Ctx) { treeUpsert(c, "C11-upsert") }, Text: "[TREE] (shared with C08) UpsertLeaf orientation"},
 		},
